@@ -1,9 +1,10 @@
 /-
 C02 — straight-line light programs against the documented meaning of their commands.
 
-A program made of SLEEP, SET_COLOR, FADE_TO_COLOR, SET_PYRO_ALL and NOP commands (durations as LEB128 varints, below
+A program made of SLEEP, WAIT_UNTIL, SET_COLOR, FADE_TO_COLOR, SET_PYRO_ALL and NOP commands (durations as LEB128 varints, below
 2^21 units; at most 65535 bytes; at most 2^24 ms in total) is written as a list `cs : List Cmd`; `encode cs` is its
-bytecode.  Command `i` starts at `timeAt cs i` = 20 ms × (sum of the first `i` durations) and lasts 20 ms × its duration.
+bytecode.  Command `i` starts at `timeAt cs i`: a sleep / set / fade advances the program clock by 20 ms × its duration, a wait-until
+advances it to 20 ms × its argument unless that instant has passed (`Cmd.next`).
 For every such program, EVERY history of seeks and every timestamp that is not a command start instant:
 
 * inside the span of a SET_COLOR / SLEEP / pyro / no-op the colour is the colour in effect (`colAt`), the pyro mask the
@@ -12,27 +13,14 @@ For every such program, EVERY history of seeks and every timestamp that is not a
   ratio elapsed/duration) from the colour in effect when the fade started to its target;
 * after the last command the program has ended and holds its last colour and pyro mask.
 
-This ties the wake-up chain of C09's development to the format's command semantics for this command set; loops, jumps,
-wait-until and clock reset are not covered by this theorem (the model and the correspondence run cover them).
+This ties the wake-up chain of C09's development to the format's command semantics for this command set; loops, jumps
+and clock reset are not covered by this theorem (the model and the correspondence run cover them).
 -/
 import Sb.Proofs.LightTimeline
 import Sb.Properties.C02Chain
 
 namespace Sb.C02
 open Sb Sb.Lights Sb.Proofs Sb.Proofs.Light Sb.C09
-
-theorem timeAt_mono (cs : List Cmd) : ∀ i j, i ≤ j → j ≤ cs.length → timeAt cs i ≤ timeAt cs j := by
-  intro i j hij
-  induction j with
-  | zero => intro _; have : i = 0 := by omega
-            subst this; exact Nat.le_refl _
-  | succ j ih =>
-    intro hj
-    by_cases h : i = j + 1
-    · subst h; exact Nat.le_refl _
-    · have := ih (by omega) (by omega)
-      rw [timeAt_succ cs j (by omega)]
-      omega
 
 /-- inside a fade of at most 2^24 ms the float32 progress is the exact ratio elapsed/duration -/
 theorem progressOf_exact (s D t : Nat) (h1 : s ≤ t) (h2 : t < s + D) (hD : D ≤ 16777216) :
@@ -74,7 +62,7 @@ theorem straight_fades_short (cs : List Cmd) (hw : WF cs) : FadesShort (encode c
       have : (chain (encode cs) 0).exec.trActive = false := (fresh_exec (encode cs)).2.1
       rw [this] at ha; exact absurd ha (by decide)
     · obtain ⟨f, af, _, _⟩ := chain_timeline cs hw k (by omega) (by omega)
-      have hms : (cs[k - 1]'(by omega)).ms ≤ 16777216 := by
+      have hms : (cs[k - 1]'(by omega)).next (timeAt cs (k - 1)) ≤ 16777216 := by
         have h1 := timeAt_succ cs (k - 1) (by omega)
         have h2 := timeAt_le cs (k - 1 + 1) (by omega)
         have := hw.time
@@ -87,11 +75,13 @@ theorem straight_fades_short (cs : List Cmd) (hw : WF cs) : FadesShort (encode c
           rw [af.1] at ha; exact absurd ha (by decide)
         · simp only [AfterCmd, hd0, if_false] at af
           rw [af.2.2.1]
-          simpa [Cmd.ms] using hms
+          simp only [Cmd.next] at hms
+          omega
       | sleep d => rw [af.1] at ha; exact absurd ha (by decide)
       | set r g b d => rw [af.1] at ha; exact absurd ha (by decide)
       | pyro m => rw [af.1] at ha; exact absurd ha (by decide)
       | nop => rw [af.1] at ha; exact absurd ha (by decide)
+      | waitUntil v => rw [af.1] at ha; exact absurd ha (by decide)
 
 theorem straight_not_instant (cs : List Cmd) (hw : WF cs) (t : Nat) (h0 : 0 < t) (hni : ∀ j, j ≤ cs.length → timeAt cs j ≠ t) :
     NotInstant (encode cs) t := by
@@ -133,7 +123,7 @@ theorem straight_line_running (cs : List Cmd) (hw : WF cs) (hist : List (Nat × 
     rw [hget]
     have hsucc := timeAt_succ cs (k' - 1) (by omega)
     rw [show k' - 1 + 1 = k' by omega] at hsucc
-    have hms : (cs[k' - 1]'(by omega)).ms ≤ 16777216 := by
+    have hms : (cs[k' - 1]'(by omega)).next (timeAt cs (k' - 1)) ≤ 16777216 := by
       have h3 := timeAt_le cs k' (by omega)
       have := hw.time
       omega
@@ -149,18 +139,19 @@ theorem straight_line_running (cs : List Cmd) (hw : WF cs) (hist : List (Nat × 
         exact idle af.1 af.2.1
       · simp only [AfterCmd, hd0, if_false] at af ⊢
         obtain ⟨a1, a2, a3, a4, a5, a6⟩ := af
-        have hD : 20 * d ≤ 16777216 := by simpa [Cmd.ms] using hms
-        have hst : (chain (encode cs) k').exec.trStart = timeAt cs (k' - 1) := by
-          simp only [Cmd.ms] at hsucc; omega
+        simp only [Cmd.next] at hms hsucc
+        have hD : 20 * d ≤ 16777216 := by omega
+        have hst : (chain (encode cs) k').exec.trStart = timeAt cs (k' - 1) := by omega
         unfold stepFade
         rw [if_pos a1, fadeFinish_color]
         unfold transitionStep
         simp only [progress_eq, a3, a4, a5, hst]
-        rw [progressOf_exact _ _ _ (le_of_lt b1) (by simp only [Cmd.ms] at hsucc; omega) hD]
+        rw [progressOf_exact _ _ _ (le_of_lt b1) (by omega) hD]
     | sleep d => exact idle af.1 af.2.1
     | set r g b d => exact idle af.1 af.2.1
     | pyro m => exact idle af.1 af.2.1
     | nop => exact idle af.1 af.2.1
+    | waitUntil v => exact idle af.1 af.2.1
   · -- the program cannot have ended before the end of its last command
     exfalso
     have hmn : m = cs.length + 1 := by
@@ -208,13 +199,13 @@ theorem straight_line_ended (cs : List Cmd) (hw : WF cs) (hist : List (Nat × Na
 
 /-! ### non-vacuity -/
 
-/-- red 1 s; fade to blue over 2 s; pyro channels 0 and 2; hold 0.5 s -/
-def demo : List Cmd := [.set 255 0 0 50, .fade 0 0 255 100, .pyro 5, .sleep 25]
+/-- red 1 s; wait until 2 s on the program clock; fade to blue over 2 s; pyro channels 0 and 2; hold 0.5 s -/
+def demo : List Cmd := [.set 255 0 0 50, .waitUntil 100, .fade 0 0 255 100, .pyro 5, .sleep 25]
 
 theorem varint_small (n : Nat) (h : n < 128) : varint n = [UInt8.ofNat n] := by
   rw [varint]; simp [h]
 
-theorem demo_bytes : encode demo = [4, 255, 0, 0, 50, 8, 0, 0, 255, 100, 21, 5, 2, 25] := by
+theorem demo_bytes : encode demo = [4, 255, 0, 0, 50, 3, 100, 8, 0, 0, 255, 100, 21, 5, 2, 25] := by
   simp only [encode, demo, List.map, Cmd.bytes, List.flatten, varint_small 50 (by decide), varint_small 100 (by decide),
     varint_small 25 (by decide)]
   decide
@@ -223,10 +214,10 @@ theorem demo_wf : WF demo := by
   refine ⟨?_, by decide, by rw [demo_bytes]; decide, by decide⟩
   intro c hc
   simp only [demo, List.mem_cons, List.mem_nil_iff, or_false] at hc
-  rcases hc with rfl | rfl | rfl | rfl <;> simp [Cmd.ok]
+  rcases hc with rfl | rfl | rfl | rfl | rfl <;> simp [Cmd.ok]
 
-example : timeAt demo 1 = 1000 ∧ timeAt demo 2 = 3000 ∧ timeAt demo 4 = 3500 := by decide
+example : timeAt demo 1 = 1000 ∧ timeAt demo 2 = 2000 ∧ timeAt demo 3 = 4000 ∧ timeAt demo 5 = 4500 := by decide
 /-- half-way through the fade: (127, 0, 127) -/
-example : specColour demo 2 2000 = (127, 0, 127) := by decide +kernel
+example : specColour demo 3 3000 = (127, 0, 127) := by decide +kernel
 
 end Sb.C02
